@@ -514,8 +514,16 @@ class MgmComputation(VariableComputation):
             if self.logger.isEnabledFor(logging.DEBUG):
                 self.logger.debug(f"Has all gains {self._gain}, {gains}")
             # determine if can change value and send ok message to neighbors
-            max_neighbors = max([gain for gain, _ in gains.values()])
-            if self._gain > max_neighbors:
+            # Gains are signed by the objective (an improvement is > 0 when
+            # minimizing and < 0 when maximizing): the best neighbor gain and
+            # the "strictly better" test must follow the objective.
+            if self._mode == "min":
+                max_neighbors = max([gain for gain, _ in gains.values()])
+                is_best = self._gain > max_neighbors
+            else:
+                max_neighbors = min([gain for gain, _ in gains.values()])
+                is_best = self._gain < max_neighbors
+            if is_best:
                 if self.logger.isEnabledFor(logging.INFO):
                     self.logger.info(
                         f"Selects new value {self._new_value}, "
